@@ -163,7 +163,7 @@ def execute(case):
                 wc = wcfg.get(rec["owner"])
                 if wc is None or rec.get("failed"):
                     continue
-                if wc.get("use_sockets"):
+                if _uses(wc):
                     if rec["close_fds"]:
                         viols.append(Violation(
                             'C07:close_fds-for-use_sockets',
@@ -235,7 +235,7 @@ def execute(case):
         gens = {}
         for rec in k.spawn_log:
             wc = wcfg.get(rec["owner"])
-            if wc and wc.get("use_sockets") and rec["pid"]:
+            if wc and _uses(wc) and rec["pid"]:
                 gens[rec["owner"]] = gens.get(rec["owner"], 0) + 1
         multi = any(n > int(wcfg[o].get("numprocesses", 1))
                     for o, n in gens.items())
@@ -331,8 +331,20 @@ def _strategy():
                             refs.append((nm, len(parts) + j))
                 wc["cmd"] = ' '.join(parts)
                 wc["_refs"] = refs
+            elif draw(st.booleans()):
+                # "without use_sockets" said explicitly (in a file: in any
+                # of the documented spellings of false)
+                wc["use_sockets"] = draw(st.sampled_from(
+                    ["False", "false", "0", "no", "off"])) \
+                    if hist.get("config") else False
         return {"sockets": socks, "history": hist}
     return case()
+
+
+def _uses(wc):
+    """use_sockets as a configuration file spells it."""
+    return str(wc.get("use_sockets", False)).lower() in (
+        'true', '1', 'yes', 'on')
 
 
 def _strip(case):
